@@ -13,13 +13,13 @@ import (
 
 type AtomKind struct {
 	Name       string
-	Constraint func(i int) []Constraint      // constraint(s) on property ex.p<i> (one key)
+	Constraint func(i int) []Constraint                       // constraint(s) on property ex.p<i> (one key)
 	Assign     func(n *Node, i int, truth bool, r *rand.Rand) // puts the witness values on the node
 	PerValue   bool
 }
 
-func pI(i int) string  { return fmt.Sprintf("%sp%d", EX, i) }
-func qI(i int) string  { return fmt.Sprintf("%sq%d", EX, i) }
+func pI(i int) string    { return fmt.Sprintf("%sp%d", EX, i) }
+func qI(i int) string    { return fmt.Sprintf("%sq%d", EX, i) }
 func PName(i int) string { return fmt.Sprintf("ex.p%d", i) }
 func QName(i int) string { return fmt.Sprintf("ex.q%d", i) }
 
